@@ -137,3 +137,14 @@ def describe(c, o):
 
 def size(c):
     return len(c["ops"])
+
+
+def shrink(c):
+    """smaller interleavings: drop one operation that creates no object (indices of objects stay valid),
+    or cut the tail"""
+    ops = c["ops"]
+    for i in range(len(ops) - 1, -1, -1):
+        if ops[i][0] not in ("newplain", "newlink"):
+            yield {"ops": ops[:i] + ops[i + 1:]}
+    for cut in range(len(ops) - 1, 0, -1):
+        yield {"ops": ops[:cut]}
